@@ -6,6 +6,7 @@
            well-founded (every blank node cycle contains a labelled node);
    Part D: list_item accepts exactly the well-formed cells, and every entry of `lists` is a genuine chain;
    Part E: the recorded defects of the pre-fix code. *)
+From Coq Require Import Permutation.
 From Sophia.Common Require Import Prelude.
 From Sophia.C04 Require Import Regex Grammar Model PreFix.
 From Sophia.C04 Require Incl.
@@ -666,20 +667,347 @@ Section Chains.
     assert (Inv : scan_inv sc).
     { apply scan_inv_fold; [auto|]. split; [intros o s; discriminate|]. split; [intros g s v []|auto]. }
     destruct Inv as [HP [HS _]].
+    generalize (S (length quads)). intro fuel.
     assert (Gen : forall seeds acc, (forall g s v, In ((g, s), v) seeds -> In ((g, s), v) (l_seeds sc)) ->
               (forall h its, In (h, its) (fst acc) -> chain h its) ->
               forall h its, In (h, its) (fst (fold_left (fun (acc : lmap * stmap) (seed : skey * N) =>
                  let g := fst (fst seed) in
-                 let r := climb item (S (length quads)) (l_preds sc) (snd (fst seed)) [snd seed] [] in
+                 let r := climb item fuel (l_preds sc) (snd (fst seed)) [snd seed] [] in
                  let head := fst (fst r) in
                  (lm_put (fst acc) head (snd (fst r)),
                   fold_left (fun st c => st_remove st (g, c)) (snd r) (snd acc))) seeds acc)) -> chain h its).
-    { induction seeds as [|[[g s] v] seeds IH]; intros acc Sub Hacc h its; simpl; [apply Hacc|].
+    { induction seeds as [|[[g s] v] seeds IH]; intros acc Sub Hacc h its; cbn [fold_left]; [apply Hacc|].
       apply IH; [intros; apply Sub; right; assumption|].
-      simpl. intros h' its' I. apply lm_put_In in I. destruct I as [[= -> ->]|I]; [|apply Hacc; exact I].
+      cbv zeta. cbn [fst snd]. intros h' its' I. apply lm_put_In in I. destruct I as [[= -> ->]|I]; [|apply Hacc; exact I].
       apply climb_chain; [exact HP|].
       destruct (HS g s v (Sub g s v (or_introl eq_refl))) as [It [Iq S]].
       apply chain_one; [eapply list_item_cell; eauto | eapply st0_subtree; eauto]. }
     apply Gen; [auto | intros h its []].
   Qed.
 End Chains.
+
+(* ===================================================================================== *)
+(* Part C': the cycle theorem at the level of the dataset                                *)
+(* ===================================================================================== *)
+(* the maps are strictly sorted by key, so that membership and lookup agree *)
+Fixpoint ksorted (m : pmap) : Prop :=
+  match m with
+  | [] => True
+  | (k, _) :: m' => (forall k' v', In (k', v') m' -> k < k') /\ ksorted m'
+  end.
+Lemma pm_put_In m k v k' v' : In (k', v') (pm_put m k v) -> (k', v') = (k, v) \/ In (k', v') m.
+Proof.
+  induction m as [|[k0 v0] m IH]; simpl.
+  - intros [H|[]]; auto.
+  - destruct (k <? k0); [simpl; intros [H|H]; auto|].
+    destruct (N.eqb k k0); simpl; [intros [H|H]; auto|]. intros [H|H]; [auto|]. destruct (IH H); auto.
+Qed.
+Lemma ksorted_put m k v : ksorted m -> ksorted (pm_put m k v).
+Proof.
+  induction m as [|[k0 v0] m IH]; simpl; [intros _; split; [intros ? ? []|exact I]|]. intros [B S].
+  destruct (k <? k0) eqn:L.
+  - apply N.ltb_lt in L. simpl. split; [|auto].
+    intros k' v' [[= <- <-]|I]; [exact L | specialize (B _ _ I); lia].
+  - apply N.ltb_ge in L. destruct (N.eqb_spec k k0) as [->|Hn]; simpl; [auto|].
+    split; [|auto]. intros k' v' I. apply pm_put_In in I. destruct I as [[= -> ->]|I]; [lia | eauto].
+Qed.
+Lemma ksorted_In_get m k v : ksorted m -> In (k, v) m -> pm_get m k = Some v.
+Proof.
+  induction m as [|[k0 v0] m IH]; simpl; [intros _ []|]. intros [B S] [[= -> ->]|I].
+  - rewrite N.eqb_refl. reflexivity.
+  - specialize (B _ _ I). destruct (N.eqb_spec k k0); [lia | auto].
+Qed.
+Lemma pm_get_In m k v : pm_get m k = Some v -> In (k, v) m.
+Proof.
+  induction m as [|[k0 v0] m IH]; simpl; [discriminate|].
+  destruct (N.eqb_spec k k0) as [->|Hn]; [intros [= ->]; auto | auto].
+Qed.
+
+Lemma fold_ksorted {A} (f : pmap -> A -> pmap) : (forall m a, ksorted m -> ksorted (f m a)) ->
+  forall l m, ksorted m -> ksorted (fold_left f l m).
+Proof. intros H l. induction l as [|a l IH]; intros m S; simpl; auto. Qed.
+
+Lemma visit_term_ksorted ks m i t q : ksorted m -> ksorted (visit_term ks m i t q).
+Proof.
+  intro S. unfold visit_term. destruct (kind_of ks t); auto.
+  - unfold visit_bnode. destruct (pm_get m t); apply ksorted_put; exact S.
+  - apply fold_ksorted; [|exact S]. intros m' a S'. unfold visit_quoted_atom.
+    destruct (pm_get m' a); apply ksorted_put; exact S'.
+Qed.
+Lemma profiles_ksorted ks quads : ksorted (profiles ks quads).
+Proof.
+  unfold profiles. apply fold_ksorted; [|exact I]. intros m q S. unfold visit_quad.
+  apply fold_ksorted; [|exact S]. intros m' it S'. apply visit_term_ksorted. exact S'.
+Qed.
+Lemma walk_ksorted stamp : forall fuel m cur, ksorted m -> ksorted (walk fuel stamp m cur).
+Proof.
+  induction fuel as [|fuel IH]; intros m cur S; simpl; [exact S|].
+  destruct cur as [t|]; [|exact S]. destruct (pm_get m t) as [p|]; [|exact S].
+  destruct (bad p); [exact S|]. destruct (N.eqb (visited p) stamp); [apply ksorted_put; exact S|].
+  destruct (negb (N.eqb (visited p) 0)); [exact S|]. apply IH. apply ksorted_put. exact S.
+Qed.
+Lemma detect_cycles_ksorted m : ksorted m -> ksorted (detect_cycles m).
+Proof.
+  unfold detect_cycles. apply fold_ksorted. intros m' ik S. unfold detect_step.
+  destruct (pm_get m' (snd ik)) as [p|]; [|exact S].
+  destruct (bad p || negb (N.eqb (visited p) 0)); [exact S|]. apply walk_ksorted. apply ksorted_put. exact S.
+Qed.
+
+(* the labelled blank nodes are exactly those whose final profile is bad *)
+Theorem build_labelled_spec ks quads n :
+  In n (build_labelled ks quads) <-> exists p, pm_get (detect_cycles (profiles ks quads)) n = Some p /\ bad p = true.
+Proof.
+  unfold build_labelled. rewrite labelled_of_spec.
+  assert (S := detect_cycles_ksorted _ (profiles_ksorted ks quads)).
+  split; intros [p [H B]]; exists p; (split; [|exact B]).
+  - apply ksorted_In_get; assumption.
+  - apply pm_get_In; assumption.
+Qed.
+
+(* what the first loop may change in a profile that exists already *)
+Definition ext1 (m m' : pmap) : Prop := forall k p, pm_get m k = Some p ->
+  exists p', pm_get m' k = Some p' /\ (bad p = true -> bad p' = true) /\
+             (forall s, predecessor p = Some s -> predecessor p' = Some s).
+Lemma ext1_refl m : ext1 m m.
+Proof. intros k p G. eauto. Qed.
+Lemma ext1_trans a b c : ext1 a b -> ext1 b c -> ext1 a c.
+Proof.
+  intros H1 H2 k p G. destruct (H1 k p G) as [p1 [G1 [B1 P1]]]. destruct (H2 k p1 G1) as [p2 [G2 [B2 P2]]].
+  exists p2. auto.
+Qed.
+Lemma ext1_put_new m k v : pm_get m k = None -> ext1 m (pm_put m k v).
+Proof.
+  intros G k' p G'. exists p. rewrite pm_get_put. destruct (N.eqb_spec k' k) as [->|]; [congruence|auto].
+Qed.
+Lemma ext1_put_upd m k p v : pm_get m k = Some p -> (bad p = true -> bad v = true) ->
+  (forall s, predecessor p = Some s -> predecessor v = Some s) -> ext1 m (pm_put m k v).
+Proof.
+  intros G B P k' p' G'. rewrite pm_get_put. destruct (N.eqb_spec k' k) as [->|].
+  - rewrite G in G'. injection G' as <-. eauto.
+  - eauto.
+Qed.
+Lemma fold_ext1 {A} (f : pmap -> A -> pmap) : (forall m a, ext1 m (f m a)) -> forall l m, ext1 m (fold_left f l m).
+Proof.
+  intros H l. induction l as [|a l IH]; intro m; simpl; [apply ext1_refl|].
+  eapply ext1_trans; [apply H | apply IH].
+Qed.
+
+Lemma update_positions_mono p g i s :
+  let v := update_positions (add_named_graph p g) i s in
+  (bad p = true -> bad v = true) /\ (forall s0, predecessor p = Some s0 -> predecessor v = Some s0).
+Proof.
+  unfold update_positions, add_named_graph. simpl.
+  destruct (N.eqb i 0); simpl; [split; [intro B; rewrite B; destruct (1 <? _)%nat; reflexivity | auto]|].
+  destruct (N.eqb i 2); simpl.
+  - destruct (predecessor p) eqn:P; simpl; [split; [reflexivity | auto]|].
+    split; [intro B; rewrite B; destruct (1 <? _)%nat; reflexivity | discriminate].
+  - split; [reflexivity | auto].
+Qed.
+
+Lemma visit_bnode_ext1 m i t q : ext1 m (visit_bnode m i t q).
+Proof.
+  unfold visit_bnode. destruct (pm_get m t) as [p|] eqn:G; [|apply ext1_put_new; exact G].
+  destruct (bad p) eqn:B; [apply (ext1_put_upd m t p); auto|].
+  destruct (update_positions_mono p (q_g q) i (q_s q)) as [H1 H2].
+  apply (ext1_put_upd m t p); auto.
+Qed.
+Lemma visit_term_ext1 ks m i t q : ext1 m (visit_term ks m i t q).
+Proof.
+  unfold visit_term. destruct (kind_of ks t); try apply ext1_refl; [apply visit_bnode_ext1|].
+  apply fold_ext1. intros m' a. unfold visit_quoted_atom. destruct (pm_get m' a) as [p0|] eqn:G.
+  - apply (ext1_put_upd m' a p0); auto.
+  - apply ext1_put_new; exact G.
+Qed.
+
+(* after the component at position i has been visited, a blank node has a profile; the object (i = 2) is
+   labelled unless its recorded predecessor is the subject of the quad *)
+Lemma visit_bnode_has m i t q :
+  exists p, pm_get (visit_bnode m i t q) t = Some p /\
+            (i = 2 -> bad p = true \/ predecessor p = Some (q_s q)).
+Proof.
+  unfold visit_bnode. destruct (pm_get m t) as [p|] eqn:G; rewrite pm_get_put, N.eqb_refl; eexists; (split; [reflexivity|]).
+  - intros ->. destruct (bad p) eqn:B; [left; exact B|].
+    unfold update_positions. simpl. destruct (predecessor p) eqn:P; simpl; [left; reflexivity|].
+    right. reflexivity.
+  - intros ->. right. reflexivity.
+Qed.
+
+Definition quad_inv (ks : list tk) (m : pmap) (q : quad) : Prop :=
+  (kind_of ks (q_s q) = TB -> exists p, pm_get m (q_s q) = Some p) /\
+  (kind_of ks (q_o q) = TB -> exists p, pm_get m (q_o q) = Some p /\ (bad p = true \/ predecessor p = Some (q_s q))).
+Lemma quad_inv_ext1 ks m m' q : ext1 m m' -> quad_inv ks m q -> quad_inv ks m' q.
+Proof.
+  intros E [H1 H2]. split; intro K.
+  - destruct (H1 K) as [p G]. destruct (E _ _ G) as [p' [G' _]]. eauto.
+  - destruct (H2 K) as [p [G D]]. destruct (E _ _ G) as [p' [G' [B' P']]]. exists p'. split; [exact G'|].
+    destruct D; auto.
+Qed.
+Lemma visit_quad_inv ks m q : quad_inv ks (visit_quad ks m q) q /\ ext1 m (visit_quad ks m q).
+Proof.
+  unfold visit_quad, spog. rewrite fold_left_app. cbn [fold_left fst snd].
+  set (m1 := visit_term ks m 0 (q_s q) q). set (m2 := visit_term ks m1 1 (q_p q) q).
+  set (m3 := visit_term ks m2 2 (q_o q) q).
+  assert (E1 : ext1 m m1) by apply visit_term_ext1.
+  assert (E2 : ext1 m1 m2) by apply visit_term_ext1.
+  assert (E3 : ext1 m2 m3) by apply visit_term_ext1.
+  assert (E4 : ext1 m3 (fold_left (fun m0 it => visit_term ks m0 (fst it) (snd it) q)
+                                  match q_g q with Some g => [(3, g)] | None => [] end m3)).
+  { apply fold_ext1. intros. apply visit_term_ext1. }
+  split; [|eapply ext1_trans; [exact E1|eapply ext1_trans; [exact E2|eapply ext1_trans; [exact E3|exact E4]]]].
+  apply (quad_inv_ext1 ks m3); [exact E4|]. split; intro K.
+  - assert (H : exists p, pm_get m1 (q_s q) = Some p).
+    { unfold m1, visit_term. rewrite K. destruct (visit_bnode_has m 0 (q_s q) q) as [p [G _]]. eauto. }
+    destruct H as [p G]. destruct (E2 _ _ G) as [p2 [G2 _]]. destruct (E3 _ _ G2) as [p3 [G3 _]]. eauto.
+  - unfold m3, visit_term. rewrite K. destruct (visit_bnode_has m2 2 (q_o q) q) as [p [G D]]. eauto.
+Qed.
+Lemma profiles_quad_inv ks quads q : In q quads -> quad_inv ks (profiles ks quads) q.
+Proof.
+  unfold profiles.
+  assert (Gen : forall qs m, (In q qs \/ quad_inv ks m q) -> quad_inv ks (fold_left (visit_quad ks) qs m) q).
+  { induction qs as [|q0 qs IH]; intros m H; simpl.
+    - destruct H as [[]|H]; exact H.
+    - apply IH. destruct H as [[->|I]|H]; [right; apply visit_quad_inv | left; exact I |].
+      right. eapply quad_inv_ext1; [apply visit_quad_inv | exact H]. }
+  intro I. apply Gen. left. exact I.
+Qed.
+Lemma ext_detect_cycles m : (forall n p, pm_get m n = Some p -> visited p = 0) -> ext m (detect_cycles m).
+Proof.
+  intro H0. unfold detect_cycles.
+  assert (Inv0 : outer_inv m 0).
+  { split; [intros k q Gk; rewrite (H0 _ _ Gk); lia | intros k q Gk V; rewrite (H0 _ _ Gk) in V; congruence]. }
+  destruct (detect_fold_spec (keys m) m 0 Inv0) as [_ [E _]]. exact E.
+Qed.
+
+(* the writer DESCENDS from s into n when it writes n inline, as `[ ... ]` or `( ... )`, while writing a statement
+   of s: n is an unlabelled blank node, object of a statement whose subject s is an unlabelled blank node too *)
+Definition unlabelled (ks : list tk) (quads : list quad) (n : N) : Prop :=
+  kind_of ks n = TB /\ ~ In n (build_labelled ks quads).
+Definition descends (ks : list tk) (quads : list quad) (s n : N) : Prop :=
+  unlabelled ks quads s /\ unlabelled ks quads n /\ exists g p, In (g, s, p, n) quads.
+
+Lemma descends_upred ks quads s n : descends ks quads s n -> upred (detect_cycles (profiles ks quads)) n s.
+Proof.
+  intros [[Ks Ls] [[Kn Ln] [g [p I]]]].
+  destruct (profiles_quad_inv ks quads _ I) as [Hs Ho]. unfold q_s, q_o in Hs, Ho. cbn [fst snd] in Hs, Ho.
+  assert (E := ext_detect_cycles _ (profiles_unvisited ks quads)).
+  destruct (Hs Ks) as [ps Gs]. destruct (Ho Kn) as [pn [Gn D]].
+  destruct (ext_some _ _ _ _ E Gs) as [ps' [Gs' _]]. destruct (ext_some _ _ _ _ E Gn) as [pn' [Gn' [Pn' [Bn' _]]]].
+  assert (Bs : bad ps' = false).
+  { destruct (bad ps') eqn:B; [|reflexivity]. exfalso. apply Ls. apply build_labelled_spec. eauto. }
+  assert (Bn : bad pn' = false).
+  { destruct (bad pn') eqn:B; [|reflexivity]. exfalso. apply Ln. apply build_labelled_spec. eauto. }
+  exists pn', ps'. repeat split; auto.
+  destruct D as [D|D]; [rewrite (Bn' D) in Bn; discriminate | congruence].
+Qed.
+
+Inductive dpath (ks : list tk) (quads : list quad) : N -> N -> Prop :=
+| dpath_one s n : descends ks quads s n -> dpath ks quads s n
+| dpath_more s n u : descends ks quads s n -> dpath ks quads n u -> dpath ks quads s u.
+
+Lemma upath_trans m a b c : upath m a b -> upath m b c -> upath m a c.
+Proof.
+  induction 1 as [a b U|a b d U P IH]; intro Pc; [eapply upath_more; eauto | eapply upath_more; [exact U | apply IH; exact Pc]].
+Qed.
+
+(* MAIN THEOREM of part C at the level of the dataset: no cycle of statements runs through unlabelled blank nodes
+   only, i.e. every blank node cycle contains a labelled node *)
+Theorem every_cycle_has_a_labelled_node ks quads n : ~ dpath ks quads n n.
+Proof.
+  assert (Rev : forall a b, dpath ks quads a b -> upath (detect_cycles (profiles ks quads)) b a).
+  { induction 1 as [s t D|s t u D P IH].
+    - apply upath_one. apply descends_upred. exact D.
+    - eapply upath_trans; [exact IH|]. apply upath_one. apply descends_upred. exact D. }
+  intro P. apply Rev in P. exact (no_unlabelled_cycle ks quads n P).
+Qed.
+
+(* ===================================================================================== *)
+(* Part F: accounting -- the statements made by the writer                               *)
+(* ===================================================================================== *)
+(* FULL STATEMENT (not proved in general; checked on every generated case through [plan_ok], see below):
+   for a duplicate-free dataset in GSPO order over strict RDF-star terms, the writer terminates and the
+   statements it makes with the plan are exactly the quads of the dataset, each once. *)
+Definition gspo_grouped (quads : list quad) : Prop :=
+  forall a q b q' c, quads = a ++ q :: b ++ q' :: c -> q_g q = q_g q' -> q_s q = q_s q' ->
+                     forall x, In x b -> q_g x = q_g q /\ q_s x = q_s q.
+Definition accounting_statement : Prop :=
+  forall ks first rest nil type_ quads,
+    NoDup quads -> gspo_grouped quads ->
+    NoDup [first; rest; nil; type_] ->
+    (forall q, In q quads -> kind_of ks (q_p q) = TI) ->
+    let w := emitted ks first rest nil type_ quads (make_plan ks first rest nil quads) in
+    w_ok w = true /\ Permutation (w_out w) quads.
+
+(* PARTIAL: the boolean accounting check evaluated by [plan_ok] on every generated case is sound *)
+Lemma quad_eqb_eq a b : quad_eqb a b = true <-> a = b.
+Proof.
+  destruct a as [[[g s] p] o], b as [[[g' s'] p'] o']. unfold quad_eqb, q_g, q_s, q_p, q_o. simpl.
+  rewrite !andb_true_iff, g_eqb_eq, !N.eqb_eq. split; [intros [[[-> ->] ->] ->]; reflexivity | intros [= -> -> -> ->]; auto].
+Qed.
+Lemma count_quad_In q l : (0 < count_quad q l)%nat -> In q l.
+Proof.
+  unfold count_quad. induction l as [|x l IH]; simpl; [lia|].
+  destruct (quad_eqb q x) eqn:E; [apply quad_eqb_eq in E; auto | auto].
+Qed.
+Theorem exactly_once_sound quads out : NoDup quads -> exactly_once quads out = true -> Permutation quads out.
+Proof.
+  intros ND H. unfold exactly_once in H. apply andb_true_iff in H. destruct H as [L C].
+  apply Nat.eqb_eq in L. rewrite forallb_forall in C.
+  apply NoDup_Permutation_bis; [exact ND | lia |].
+  intros q I. apply count_quad_In. specialize (C q I). apply Nat.eqb_eq in C. lia.
+Qed.
+Theorem accounting_checked_partial ks first rest nil type_ quads labels colls plists :
+  NoDup quads -> plan_ok ks first rest nil type_ quads labels colls plists = true ->
+  let w := emitted ks first rest nil type_ quads (make_plan ks first rest nil quads) in
+  w_ok w = true /\ Permutation quads (w_out w).
+Proof.
+  intros ND H. unfold plan_ok in H. repeat (apply andb_true_iff in H; destruct H as [H ?]).
+  split; [assumption | apply exactly_once_sound; assumption].
+Qed.
+
+(* ===================================================================================== *)
+(* Part E: the defects of the pre-fix code, on record                                    *)
+(* ===================================================================================== *)
+Definition s_12 : str := [49; 50].               (* "12" *)
+Definition s_1x5 : str := [49; 120; 53].         (* "1x5" *)
+Definition s_55me5 : str := [53; 53; 45; 101; 53].   (* "55-e5", the word printed by `ka` *)
+
+(* rows 1 and 2: the unescaped dot *)
+Example prefix_decimal_refuted :
+  (matchb PreFix.decimal_re s_12 = true /\ matchb DECIMAL s_12 = false /\ matchb INTEGER s_12 = true) /\
+  (matchb PreFix.decimal_re s_1x5 = true /\ matchb DECIMAL s_1x5 = false /\ matchb INTEGER s_1x5 = false /\ matchb DOUBLE s_1x5 = false) /\
+  bare_with PreFix.integer_re PreFix.decimal_re PreFix.double_re PreFix.boolean_re xsd_decimal s_12 = true /\
+  bare_literal xsd_decimal s_12 = false /\ bare_literal xsd_decimal s_1x5 = false.
+Proof. vm_compute. repeat split; reflexivity. Qed.
+Example prefix_double_refuted :
+  matchb PreFix.double_re s_55me5 = true /\ matchb DOUBLE s_55me5 = false /\ bare_literal xsd_double s_55me5 = false.
+Proof. vm_compute. repeat split; reflexivity. Qed.
+
+(* row 3: _:b p _:c. _:c p _:d. _:d p _:b. _:b q _:a.   terms in Term::cmp order:
+   0 _:a  1 _:b  2 _:c  3 _:d  4 ex:p  5 ex:q  6 rdf:first  7 rdf:nil  8 rdf:rest  9 rdf:type *)
+Definition w3_ks : list tk := [TB; TB; TB; TB; TI; TI; TI; TI; TI; TI].
+Definition w3_quads : list quad := [(None, 1, 4, 2); (None, 1, 5, 0); (None, 2, 4, 3); (None, 3, 4, 1)].
+Example cycle_detection_old_refuted :
+  (* pre-fix: nobody is labelled although b -> c -> d -> b is a cycle; the writer makes no statement at all *)
+  build_labelled_old w3_ks w3_quads = [] /\
+  w_out (emitted w3_ks 6 8 7 9 w3_quads (make_plan_old w3_ks 6 8 7 w3_quads)) = [] /\
+  (* repaired: b is labelled and the four quads are stated once each *)
+  build_labelled w3_ks w3_quads = [1] /\
+  exactly_once w3_quads (w_out (emitted w3_ks 6 8 7 9 w3_quads (make_plan w3_ks 6 8 7 w3_quads))) = true.
+Proof. vm_compute. repeat split; reflexivity. Qed.
+
+(* row 4: ex:s ex:p _:l.  _:l first 1; rest nil; rest _:m.  _:m first 2; rest nil.
+   0 _:l  1 _:m  2 ex:p  3 ex:s  4 rdf:first  5 rdf:nil  6 rdf:rest  7 rdf:type  8 "1"  9 "2" *)
+Definition w4_ks : list tk := [TB; TB; TI; TI; TI; TI; TI; TI; TL; TL].
+Definition w4_quads : list quad :=
+  [(None, 0, 4, 8); (None, 0, 6, 1); (None, 0, 6, 5); (None, 1, 4, 9); (None, 1, 6, 5); (None, 3, 2, 0)].
+Example list_item_old_refuted :
+  (* pre-fix: the cell with two rdf:rest is accepted, the plan holds the list (1 2) for it and the writer loses
+     the statement _:l rdf:rest rdf:nil *)
+  list_item_old 4 6 w4_quads 0 = Some 8 /\
+  pl_lists (make_plan_old w4_ks 4 6 5 w4_quads) = [(0, [8; 9])] /\
+  exactly_once w4_quads (w_out (emitted w4_ks 4 6 5 7 w4_quads (make_plan_old w4_ks 4 6 5 w4_quads))) = false /\
+  (* repaired: the cell is refused, only (2) is a list, every quad is stated once *)
+  list_item 4 6 w4_quads 0 = None /\
+  pl_lists (make_plan w4_ks 4 6 5 w4_quads) = [(1, [9])] /\
+  exactly_once w4_quads (w_out (emitted w4_ks 4 6 5 7 w4_quads (make_plan w4_ks 4 6 5 w4_quads))) = true.
+Proof. vm_compute. repeat split; reflexivity. Qed.
